@@ -71,6 +71,59 @@ def kind_of(v):
     return 'unknown(%s)' % type(v).__name__
 
 
+def receiver_kind(ctx, fi, expr, depth=0, seen=None):
+    """'not-a-token' if the expression can only denote instances of analysed classes that are not
+    token.Token subclasses (e.g. span_tokenizer.ParseToken); 'maybe-token' otherwise. Parameters are
+    resolved through the call sites of the function."""
+    model = ctx.model
+    tok = model.cls('token.Token')
+    seen = set() if seen is None else seen
+    if depth > 4:
+        return 'maybe-token'
+    if isinstance(expr, ast.Name):
+        params = fi.params()
+        if fi.cls is not None and fi.kind in ('method', 'property') and params and expr.id == params[0]:
+            return 'maybe-token' if fi.cls.is_subclass_of(tok) or any(tok in c.mro() for c in model.subclasses_of(fi.cls)) else 'not-a-token'
+        if expr.id in params:
+            pos = params.index(expr.id)
+            if (fi.qualname, pos) in seen:
+                return 'not-a-token'      # recursion adds no new receivers
+            seen.add((fi.qualname, pos))
+            cg = ctx.callgraph()
+            sites = [s_ for s_ in cg.sites if fi in s_.callees]
+            if not sites:
+                return 'maybe-token'
+            for s_ in sites:
+                call = s_.node
+                off = 1 if (fi.kind in ('method', 'property') and isinstance(call.func, ast.Attribute)) else 0
+                i = pos - off
+                arg = None
+                if 0 <= i < len(call.args) and not any(isinstance(a, ast.Starred) for a in call.args):
+                    arg = call.args[i]
+                else:
+                    for kw in call.keywords:
+                        if kw.arg == expr.id:
+                            arg = kw.value
+                if arg is None:
+                    if off == 1 and pos == 0:
+                        arg = call.func.value
+                    else:
+                        return 'maybe-token'
+                if receiver_kind(ctx, s_.caller, arg, depth + 1, seen) != 'not-a-token':
+                    return 'maybe-token'
+            return 'not-a-token'
+        from ..affine import single_defs
+        d = single_defs(fi.node).get(expr.id)
+        if d is not None:
+            return receiver_kind(ctx, fi, d, depth + 1, seen)
+        return 'maybe-token'
+    if isinstance(expr, ast.Call):
+        r = model.resolve_expr(fi.modname, expr.func)
+        if isinstance(r, ClassInfo):
+            return 'maybe-token' if r.is_subclass_of(tok) else 'not-a-token'
+    return 'maybe-token'
+
+
 def rule_parent_stamp(ctx, rep):
     model = ctx.model
     rule = 'R-PARENT-STAMP'
@@ -98,15 +151,20 @@ def rule_parent_stamp(ctx, rep):
                 site = (node, '%s[...]=' % ast.unparse(node.value))
             if site is not None:
                 n += 1
+                recv = node.func.value.value if isinstance(node, ast.Call) else node.value.value
+                kind = receiver_kind(ctx, fi, recv)
                 key = 'C12/%s/%s/%s' % (rule, fi.short, site[1])
-                ok = key in audit
+                ok = kind == 'not-a-token' or key in audit
+                if kind == 'not-a-token':
+                    rep.obligation(rule, True, {'site': fi.short, 'mutation': site[1], 'receiver': 'never a token.Token (resolved through callers)'})
+                    continue
                 if ok:
                     rep.audit_used.append({'key': key, 'reason': audit[key]['reason']})
                 rep.obligation(rule, ok, {'site': fi.short, 'mutation': site[1], 'audited': ok})
                 if not ok:
                     rep.find(rule, fi.short, 'mutates:' + site[1], '%s mutates a children container in place (%s): children '
                              'added this way get no parent link' % (fi.short, site[1]), loc(unit, site[0]))
-    rep.floor(rule, n, 4)
+    rep.floor(rule, n, 2)
     # the setter
     setter = tok.setters.get('children')
     getter = tok.methods.get('children')
